@@ -160,10 +160,10 @@ impl Mk {
     }
     fn make(&self, key: &[u8], iv: &[u8]) -> Obj {
         match self {
-            Mk::Blk(d) => Obj::Blk((d.mk)(Ctor::New, key, iv).expect("harness: ctor")),
-            Mk::Buf(d) => Obj::Buf((d.mk)(Ctor::New, key, iv).expect("harness: ctor")),
-            Mk::Stream(d) => Obj::Stream((d.mk)(Ctor::New, key, iv).expect("harness: ctor")),
-            Mk::Core(d) => Obj::Core((d.mk)(Ctor::New, key, iv).expect("harness: ctor")),
+            Mk::Blk(d) => Obj::Blk((d.mk)(Ctor::New, key, iv).expect("contract: constructor rejected a key/IV of the right length")),
+            Mk::Buf(d) => Obj::Buf((d.mk)(Ctor::New, key, iv).expect("contract: constructor rejected a key/IV of the right length")),
+            Mk::Stream(d) => Obj::Stream((d.mk)(Ctor::New, key, iv).expect("contract: constructor rejected a key/IV of the right length")),
+            Mk::Core(d) => Obj::Core((d.mk)(Ctor::New, key, iv).expect("contract: constructor rejected a key/IV of the right length")),
         }
     }
     fn gen_op(&self, ctx: &mut Ctx) -> Op {
@@ -250,33 +250,31 @@ fn debug_text(ctx: &mut Ctx) {
     let b = ctx.cfg.bs;
     ctx.note("check", J::s("debug-text"));
     // variants: different key, IV and history; texts are collected after every operation
-    let mut all: Vec<(String, &'static str, String, Option<Vec<u8>>)> = Vec::new(); // (variant, kind, text, unused ks)
+    let mut all: Vec<(String, &'static str, String, Option<Vec<Vec<u8>>>)> = Vec::new(); // (variant, kind, text, keystream blocks the cipher produced)
     for v in 0..3 {
         let key = if v == 0 { ctx.key.clone() } else { ctx.rng.bytes(ctx.cfg.key_len) };
         let (iv, _) = if let Mk::Stream(d) = &mk { stream_iv(ctx, d.flavor, b) } else { mode_iv(ctx, mk.iv_len(b)) };
         let nops = ctx.rng.range(0, 4);
         let ops: Vec<Op> = (0..nops).map(|_| mk.gen_op(ctx)).collect();
         let r = guard(|| {
+            bmv_core::spy::log_start();
             let mut o = mk.make(&key, &iv);
-            // a twin with the same history tells us what keystream is still unused
-            let mut twin = mk.make(&key, &iv);
             let mut out = Vec::new();
             for (k, t) in texts(&o) {
                 out.push((format!("v{}@0", v), k, t, None));
             }
-            bmv_core::spy::log_start();
             for op in ops.iter() {
                 o.step(op);
             }
-            let _ = &mut twin;
-            // The most recent keystream block the spy cipher produced for this object: if the
-            // Debug text lists L bytes, they are claimed to be its last L bytes.
-            let last_ks: Option<Vec<u8>> = if matches!(o, Obj::Stream(_)) {
-                bmv_core::spy::log_take().into_iter().filter(|e| e.dir == bmv_core::spy::Dir::E).last().map(|e| e.out)
+            // Every keystream block the spy cipher produced for this object (construction
+            // included; an implementation may generate keystream ahead of need): if the Debug
+            // text lists L bytes, they are claimed to be the last L bytes of one of them.
+            let ks_blocks: Option<Vec<Vec<u8>>> = if matches!(o, Obj::Stream(_)) {
+                Some(bmv_core::spy::log_take().into_iter().filter(|e| e.dir == bmv_core::spy::Dir::E).map(|e| e.out).collect())
             } else {
                 None
             };
-            let unused = last_ks;
+            let unused = ks_blocks;
             for (k, t) in texts(&o) {
                 out.push((format!("v{}@{}", v, ops.len()), k, t, unused.clone()));
             }
@@ -290,7 +288,7 @@ fn debug_text(ctx: &mut Ctx) {
         }
     }
     for kind in ["debug", "debug#", "core_debug", "alg_name"] {
-        let of_kind: Vec<&(String, &'static str, String, Option<Vec<u8>>)> = all.iter().filter(|x| x.1 == kind).collect();
+        let of_kind: Vec<&(String, &'static str, String, Option<Vec<Vec<u8>>>)> = all.iter().filter(|x| x.1 == kind).collect();
         if of_kind.is_empty() {
             continue;
         }
@@ -306,8 +304,8 @@ fn debug_text(ctx: &mut Ctx) {
                 for (x, s) in of_kind.iter().zip(&stripped) {
                     let list = &s.as_ref().unwrap().1;
                     match &x.3 {
-                        Some(last_block) => {
-                            if list.len() <= last_block.len() && last_block.ends_with(list) {
+                        Some(blocks) => {
+                            if list.is_empty() || blocks.iter().any(|blk| list.len() <= blk.len() && blk.ends_with(list)) {
                                 if !list.is_empty() {
                                     witnessed = Some((x.0.clone(), list.clone()));
                                 }
